@@ -1,5 +1,5 @@
 (* C06 -- Typed option values use the minimal big-endian uint form and round-trip. *)
-From CoapV Require Import Base Header Packet UintOpt Utf8 Numbers TypedOpt Suite06 proofs.P06 proofs.P06b.
+From CoapV Require Import Base Header Packet UintOpt Utf8 Numbers TypedOpt Suite06 proofs.P06 proofs.P06b proofs.P19c.
 
 (* the drain loop (with its assert) produces the minimal big-endian form for every value of the width *)
 Theorem C06_encode_minimal : forall v w, v < 256 ^ w -> option_from_uint v w = Ok (be_min v).
@@ -51,12 +51,12 @@ Theorem C06_observe_value : forall p v, v < U32 ->
 Proof. exact set_observe_value_spec. Qed.
 Print Assumptions C06_observe_value.
 
-(* the codec entry points pass the suite-60 oracle (spec60, from be_min / be_value / the UTF-8 table only) on EVERY
-   input of kinds 0 (encode), 1 (decode) and 2 (string); the typed-accessor kinds 3-7 are stated by the theorems
-   above and compared case by case at run time *)
-Theorem C06_model_passes_oracle_codec : forall s, (exists r, s = 0 :: r \/ s = 1 :: r \/ s = 2 :: r) -> verdict60 s (run60 s) = true.
-Proof. exact model_passes_oracle60_codec. Qed.
-Print Assumptions C06_model_passes_oracle_codec.
+(* the model passes the suite-60 oracle (spec60: written from be_min / be_value / the UTF-8 table and the raw option
+   map only) on EVERY input: encode, decode, strings, add_option_as / set_options_as for lists of typed values on any
+   raw packet state, set_observe_value, set_content_format and the typed getters *)
+Theorem C06_model_passes_oracle : forall s, verdict60 s (run60 s) = true.
+Proof. exact model_passes_oracle60. Qed.
+Print Assumptions C06_model_passes_oracle.
 
 Example C06_example :
   option_from_uint 65536 4 = Ok [1; 0; 0] /\ uint_try_from [0; 0; 1; 0] 4 = Ok 256 /\
